@@ -56,7 +56,12 @@ impl ZodBindingsGenerator {
 
         let variants: Vec<String> = field_contexts
             .iter()
-            .map(|field| format!("\"{}\"", field.serialized_name))
+            .map(|field| {
+                format!(
+                    "\"{}\"",
+                    crate::generators::zod::filters::escape_for_js(&field.serialized_name)
+                )
+            })
             .collect();
 
         let enum_values = variants.join(", ");
